@@ -82,6 +82,15 @@ func (p *TriggerPool) maxIterationsReached() {
 func (p *TriggerPool) sendJobsForExecution(numJobs int) {
 	p.jobsAvailableCond.L.Lock()
 
+	// Trigger checks the context before it gets here, in a separate step: a tick can pass that check,
+	// then stop() runs to completion, and only then does the tick arrive. Nobody drains the pending work
+	// after stop(), so the tick is refused as a whole, like one arriving after the cancellation. stop()
+	// raises the flag before it takes this lock for its final drain: a tick either is published before
+	// that drain (and is accounted for by it) or sees the flag here.
+	if !p.running() {
+		numJobs = 0
+	}
+
 	jobsDiscarded := p.jobsToExecute.set(numJobs)
 	p.jobsAvailableCond.Broadcast()
 
